@@ -9,6 +9,7 @@
 #include "entdec.h"
 #include "mfrngcod.h"
 
+int verif_icdf_n;   /* ghost: number of entries of the ICDF table handed to ec_dec_icdf */
 #define TWO23 (1U<<23)
 #define TWO31 (1U<<31)
 
@@ -222,4 +223,90 @@ __CPROVER_assigns(*_this)
 __CPROVER_ensures(RI_ENC(_this) && _this->buf == _buf && _this->storage == _size && _this->offs == 0 && _this->end_offs == 0 &&
                   _this->error == 0 && _this->rng == TWO31 && _this->nbits_total == 33)
 ;
+
+/* ---- decoder ------------------------------------------------------------------------------ */
+#define DEC_FRAME(d) (d)->val, (d)->rng, (d)->nbits_total, (d)->rem, (d)->offs
+#define DEC_UNCHANGED(d) ((d)->buf == __CPROVER_old((d)->buf) && (d)->storage == __CPROVER_old((d)->storage) && \
+   (d)->end_offs == __CPROVER_old((d)->end_offs) && (d)->end_window == __CPROVER_old((d)->end_window) && \
+   (d)->nend_bits == __CPROVER_old((d)->nend_bits) && (d)->error == __CPROVER_old((d)->error))
+#define DEC_OP_REQUIRES(d) (DEC_FRESH(d) && RI_DEC(d) && (d)->nbits_total < (1<<28) - 64)
+#define DEC_OP_ENSURES(d) (RI_DEC(d) && DEC_UNCHANGED(d) && (d)->offs >= __CPROVER_old((d)->offs) && \
+   (d)->nbits_total >= __CPROVER_old((d)->nbits_total) && (d)->nbits_total <= __CPROVER_old((d)->nbits_total) + 24)
+
+/* reads never leave buf[0..storage): zero is returned instead (RFC 6716 4.1.1) */
+static int ec_read_byte(ec_dec *_this)
+__CPROVER_requires(DEC_FRESH(_this) && _this->offs <= _this->storage)
+__CPROVER_assigns(_this->offs)
+__CPROVER_ensures(0 <= __CPROVER_return_value && __CPROVER_return_value <= 255 && _this->offs <= _this->storage)
+__CPROVER_ensures(__CPROVER_old(_this->offs) < _this->storage ?
+      (_this->offs == __CPROVER_old(_this->offs) + 1 && __CPROVER_return_value == _this->buf[__CPROVER_old(_this->offs)]) :
+      (_this->offs == __CPROVER_old(_this->offs) && __CPROVER_return_value == 0))
+;
+
+static int ec_read_byte_from_end(ec_dec *_this)
+__CPROVER_requires(DEC_FRESH(_this) && _this->end_offs <= _this->storage)
+__CPROVER_assigns(_this->end_offs)
+__CPROVER_ensures(0 <= __CPROVER_return_value && __CPROVER_return_value <= 255 && _this->end_offs <= _this->storage)
+__CPROVER_ensures(__CPROVER_old(_this->end_offs) < _this->storage ?
+      (_this->end_offs == __CPROVER_old(_this->end_offs) + 1 && __CPROVER_return_value == _this->buf[_this->storage - _this->end_offs]) :
+      (_this->end_offs == __CPROVER_old(_this->end_offs) && __CPROVER_return_value == 0))
+;
+
+/* normalize: rng >= 1 on entry; the same SPEC_NORM / SPEC_NSH as the encoder => lock-step */
+static void ec_dec_normalize(ec_dec *_this)
+__CPROVER_requires(DEC_FRESH(_this) && _this->offs <= _this->storage && 0 <= _this->rem && _this->rem <= 255)
+__CPROVER_requires(_this->rng >= 1 && _this->rng <= TWO31 && _this->val < _this->rng)
+__CPROVER_requires(0 <= _this->nbits_total && _this->nbits_total < (1<<28) - 32)
+__CPROVER_assigns(DEC_FRAME(_this))
+__CPROVER_ensures(_this->rng == SPEC_NORM(__CPROVER_old(_this->rng)) && _this->rng > TWO23 && _this->rng <= TWO31)
+__CPROVER_ensures(_this->nbits_total == __CPROVER_old(_this->nbits_total) + 8*SPEC_NSH(__CPROVER_old(_this->rng)))
+__CPROVER_ensures(_this->val < _this->rng && 0 <= _this->rem && _this->rem <= 255)
+__CPROVER_ensures(_this->offs <= _this->storage && _this->offs >= __CPROVER_old(_this->offs))
+;
+
+int ec_dec_bit_logp(ec_dec *_this, unsigned _logp)
+__CPROVER_requires(DEC_OP_REQUIRES(_this) && 1 <= _logp && _logp <= 16)
+__CPROVER_assigns(DEC_FRAME(_this))
+__CPROVER_ensures(DEC_OP_ENSURES(_this))
+__CPROVER_ensures(__CPROVER_return_value == 0 || __CPROVER_return_value == 1)
+__CPROVER_ensures(__CPROVER_return_value == (__CPROVER_old(_this->val) < (__CPROVER_old(_this->rng) >> _logp)))
+__CPROVER_ensures(_this->rng == SPEC_NORM(SPEC_RNG_BIT(__CPROVER_old(_this->rng), __CPROVER_return_value, _logp)))
+__CPROVER_ensures(_this->nbits_total == __CPROVER_old(_this->nbits_total) + 8*SPEC_NSH(SPEC_RNG_BIT(__CPROVER_old(_this->rng), __CPROVER_return_value, _logp)))
+;
+
+opus_uint32 ec_dec_bits(ec_dec *_this, unsigned _bits)
+__CPROVER_requires(DEC_OP_REQUIRES(_this) && 1 <= _bits && _bits <= 25)
+__CPROVER_assigns(_this->end_window, _this->nend_bits, _this->nbits_total, _this->end_offs)
+__CPROVER_ensures(RI_DEC(_this) && __CPROVER_return_value < (1U << _bits))
+__CPROVER_ensures(_this->nbits_total == __CPROVER_old(_this->nbits_total) + (int)_bits)
+__CPROVER_ensures(_this->end_offs >= __CPROVER_old(_this->end_offs) && _this->end_offs <= __CPROVER_old(_this->end_offs) + 4)
+;
+
+void ec_dec_init(ec_dec *_this, unsigned char *_buf, opus_uint32 _storage)
+__CPROVER_requires(__CPROVER_is_fresh(_this, sizeof(*_this)) && 1 <= _storage && _storage <= (1U<<30) && __CPROVER_is_fresh(_buf, _storage))
+__CPROVER_assigns(*_this)
+__CPROVER_ensures(RI_DEC(_this) && _this->buf == _buf && _this->storage == _storage && _this->end_offs == 0 && _this->error == 0)
+/* same initial range and bit count as ec_enc_init: base case of the lock-step relation */
+__CPROVER_ensures(_this->rng == TWO31 && _this->nbits_total == 33)
+;
+
+/* table look-up: the table must end in 0 before entry _n; then the loop terminates inside the table */
+int ec_dec_icdf(ec_dec *_this, const unsigned char *_icdf, unsigned _ftb)
+__CPROVER_requires(DEC_OP_REQUIRES(_this) && 1 <= _ftb && _ftb <= 8 && 1 <= verif_icdf_n && verif_icdf_n <= 256)
+__CPROVER_requires(__CPROVER_is_fresh(_icdf, verif_icdf_n) && _icdf[verif_icdf_n - 1] == 0 && _icdf[0] <= (1U<<_ftb) - 1)
+__CPROVER_requires(__CPROVER_forall { int t1; (0 <= t1 && t1 < 255) ==> (t1 + 1 < verif_icdf_n ==> _icdf[t1] >= _icdf[t1+1]) })
+__CPROVER_assigns(DEC_FRAME(_this))
+__CPROVER_ensures(DEC_OP_ENSURES(_this))
+__CPROVER_ensures(0 <= __CPROVER_return_value && __CPROVER_return_value < verif_icdf_n)
+__CPROVER_ensures(_this->rng == SPEC_NORM(SPEC_RNG(__CPROVER_old(_this->rng), __CPROVER_old(_this->rng)>>_ftb,
+      (__CPROVER_return_value > 0 ? (1U<<_ftb) - _icdf[__CPROVER_return_value-1] : 0), (1U<<_ftb) - _icdf[__CPROVER_return_value], (1U<<_ftb))))
+;
+
+#undef  OPUS_VERIF_LOOP_dec_icdf
+#define OPUS_VERIF_LOOP_dec_icdf \
+  __CPROVER_assigns(t, s, ret) \
+  __CPROVER_loop_invariant(-1 <= ret && ret < verif_icdf_n - 1 && d < s && s <= _this->rng) \
+  __CPROVER_loop_invariant(ret >= 0 ==> s == r * _icdf[ret]) \
+  __CPROVER_loop_invariant(ret < 0 ==> s == _this->rng) \
+  __CPROVER_decreases(verif_icdf_n - ret)
 #endif
